@@ -96,12 +96,12 @@ def run_valgrind(exe, script, timeout=1800):
         sp = os.path.join(d, "script.txt")
         with open(sp, "w") as f:
             f.write("\n".join(script) + "\n")
-        try:
-            p = subprocess.run(["valgrind", "--error-exitcode=0", "--undef-value-errors=yes", "--num-callers=14", exe, sp,
-                                os.path.join(d, "case.txt")], capture_output=True, text=True, env=e, timeout=timeout, errors="replace")
-        except subprocess.TimeoutExpired:
+        # private Open MPI session directory + relaunch when the MPI runtime itself fails to start (pmlib.run_mpi_process)
+        rc, _, err = pmlib.run_mpi_process(["valgrind", "--error-exitcode=0", "--undef-value-errors=yes", "--num-callers=14", exe, sp,
+                                            os.path.join(d, "case.txt")], e, timeout)
+        if rc == -999:
             return None, []
-    blocks = re.split(r"\n==\d+== \n", p.stderr)
+    blocks = re.split(r"\n==\d+== \n", err)
     bad = []
     for b in blocks:
         lines = [re.sub(r"^==\d+== ?", "", l) for l in b.strip().splitlines()]
@@ -113,7 +113,7 @@ def run_valgrind(exe, script, timeout=1800):
         top = frames[:6]
         if any("Pomerol::" in f or "pMPI::" in f for f in top) and not any(("libmpi" in f or "libopen-" in f or "libpmix" in f) for f in frames[:2]):
             bad.append(lines[0] + " | " + " <- ".join(f.split(" (")[0][3:] for f in frames[:5]))
-    return p.returncode, bad
+    return rc, bad
 
 
 def valgrind_lane(ctx):
